@@ -38,6 +38,19 @@ def qmOpOfJson (j : Json) : Option Op := do
     let s ← (jField? j "sequential").bind jBool?
     let b ← (jField? j "body").bind bodyOfJson
     pure (.ctx r n s b)
+  else if k == "keepr" then do
+    let r ← (jField? j "recv").bind jBool?
+    let n ← (jField? j "n").bind jNat?
+    let f ← (jField? j "fails").bind jNat?
+    let t ← (jField? j "tries").bind jNat?
+    pure (.keepr r n f t)
+  else if k == "seqr" then do
+    let r ← (jField? j "recv").bind jBool?
+    let n ← (jField? j "n").bind jNat?
+    let b ← (jField? j "body").bind bodyOfJson
+    let f ← (jField? j "fails").bind jNat?
+    let t ← (jField? j "tries").bind jNat?
+    pure (.seqr r n b f t)
   else if k == "flush" then pure .flush
   else if k == "close" then pure .close
   else none
